@@ -603,7 +603,9 @@ func init() {
 			}
 			for m := 0; m < 128; m++ {
 				if masks[m] {
-					cases = append(cases, e11RootCase(seed, L, m, 0))
+					for rep := 0; rep < tierPick(tier, 1, 3); rep++ {
+						cases = append(cases, e11RootCase(seed, L, m, rep))
+					}
 				}
 			}
 			for m := 0; m < 16; m++ {
@@ -612,7 +614,7 @@ func init() {
 				}
 			}
 		}
-		for i := 0; i < tierPick(tier, 16, 200); i++ {
+		for i := 0; i < tierPick(tier, 16, 600); i++ {
 			cases = append(cases, e11StressCase(seed, i))
 		}
 		return cases
